@@ -535,7 +535,7 @@ def _jsonable(x):
     return str(x)
 
 
-def run_path(target, cfg, prefix):
+def run_path(target, cfg, prefix, want_witness=False):
     """target = (module, function, kwargs).  Returns a picklable result dict."""
     global CUR
     mod = importlib.import_module(target[0])
@@ -559,10 +559,22 @@ def run_path(target, cfg, prefix):
         # expected to catch and judge exceptions of the code under test).
         status = 'error'
         info = ''.join(traceback.format_exception(type(e), e, e.__traceback__))[-3000:]
-    finally:
-        CUR = None
+    witness = None
+    if want_witness and status == 'ok':
+        # one concrete member of this path's input class, for the evidence samples
+        try:
+            CUR = p
+            names = list(p.inputs.keys())[:40]
+            rs, vals, _ = p.check([], eval_terms=[p.inputs[k] for k in names])
+            if rs == 'sat':
+                witness = dict(zip(names, vals))
+            elif rs == 'unknown':
+                p.unknowns -= 1          # (a witness is informational, not an obligation)
+        except BaseException:
+            witness = None
+    CUR = None
     return {
-        'status': status, 'info': info, 'pending': p.pending, 'obls': p.obls,
+        'status': status, 'info': info, 'pending': p.pending, 'obls': p.obls, 'witness': witness,
         'nq': p.nq, 'solver_s': p.solver_s, 'kills': p.kills, 'unknowns': p.unknowns,
         'trace': p.trace, 'notes': p.notes, 'inconclusive': p.inconclusive,
         'reached': sorted(p.reached), 'wall': time.time() - t0, 'ndec': p.ndec,
@@ -599,8 +611,8 @@ class _Worker(object):
         self.buf = b''
         self.started = None
 
-    def send(self, prefix):
-        data = pickle.dumps(prefix)
+    def send(self, prefix, want_witness=False):
+        data = pickle.dumps((prefix, want_witness))
         os.write(self.wfd, struct.pack('>I', len(data)) + data)
         self.busy = prefix
         self.started = time.time()
@@ -638,10 +650,10 @@ def _worker_loop(rfd, wfd, target, cfg):
         if hdr is None:
             return
         n = struct.unpack('>I', hdr)[0]
-        prefix = pickle.loads(_read_exact(rfd, n))
+        prefix, want_witness = pickle.loads(_read_exact(rfd, n))
         if prefix is None:
             return
-        res = run_path(target, cfg, prefix)
+        res = run_path(target, cfg, prefix, want_witness)
         data = pickle.dumps(res)
         os.write(wfd, struct.pack('>I', len(data)) + data)
 
@@ -692,7 +704,7 @@ def explore(target, cfg=None, nproc=None, max_paths=200000, wall_budget=None, ke
             if res.paths >= max_paths or (wall_budget and time.time() - t0 > wall_budget):
                 break
             prefix = pending.pop()
-            r = run_path(target, cfg, prefix)
+            r = run_path(target, cfg, prefix, want_witness=(res.paths < 6))
             _absorb(res, r, pending, keep_paths, on_result)
         res.left = len(pending)
         res.wall = time.time() - t0
@@ -705,7 +717,7 @@ def explore(target, cfg=None, nproc=None, max_paths=200000, wall_budget=None, ke
             submitted = res.paths + sum(1 for w in workers if w.busy is not None)
             while idle and pending and not over and submitted < max_paths:
                 w = idle.pop()
-                w.send(pending.pop())
+                w.send(pending.pop(), want_witness=(submitted < 6))
                 submitted += 1
             busy = [w for w in workers if w.busy is not None]
             if not busy:
@@ -769,7 +781,9 @@ def _absorb(res, r, pending, keep_paths, on_result):
         res.sample_traces.append({'decisions': ''.join(
             ('T' if t[1] else 'F') if t[0] == 'd' else '[%s]' % t[1] for t in r['trace'])[:200],
             'obligations': [o['label'] + ':' + o['result'] for o in r['obls']][:12],
-            'status': r['status']})
+            'status': r['status'],
+            'one_input_of_this_path': ({k: (float(v) if isinstance(v, Fraction) else v) for k, v in list(r['witness'].items())[:24]}
+                                       if r.get('witness') else None)})
     res.notes.extend(r['notes'][:5] if not PROFILE else r['notes'])
     res.events.extend(r.get('events', [])[:50] if len(res.events) < 500 else [])
     pending.extend(r['pending'])
